@@ -17,8 +17,6 @@ def plan(tier, seed):
         for E in range(1, 255, 6):
             for hi in (0, 0x7fff, 0x5555):
                 ks.append("dragonbox_f32@E=%d,free=8,hi=%#x" % (E, hi))
-        for E in (127, 160, 90):
-            ks.append("dragonbox_f32@E=%d,free=12,hi=0x710" % E)
         for E in range(1, 255):
             ks.append("dragonbox_f32@E=%d,shorter" % E)
         for E in range(1, 2047):
